@@ -5537,7 +5537,7 @@ def EBCM_pref_mix_discrete(N, Pk, Pnk, p, rho = None, tmin = 0, tmax = 100, retu
         rho = 1./N
 
     
-    times = [0]
+    times = [tmin]
     theta = {k:[1] for k in Pk.keys()}
     R = [0]
     S = [N*(1-rho)]
@@ -5545,7 +5545,7 @@ def EBCM_pref_mix_discrete(N, Pk, Pnk, p, rho = None, tmin = 0, tmax = 100, retu
     phiS={k: (1-rho) for k in Pk.keys()}
     phiI={k : rho for k in Pk.keys()}
     phiR = {k:0 for k in Pk.keys()}
-    for time in range(1,tmax+1):
+    for time in range(tmin+1,tmax+1):
         times.append(time)
         newtheta = {k:theta[k][-1]-p*phiI[k] for k in Pk.keys()}
         newR = R[-1]+I[-1]
